@@ -213,6 +213,18 @@ def check_model(out, c):
             out.fail('re-ranged-levels', 'after changing the pressure range the layers are not the geometric mean of the new levels')
         if np.shape(m.densityProfile) == (nl,) and not close(m.densityProfile, P2 / (ref.K_BOLTZ * np.asarray(m.temperatureProfile)), rtol=1e-12):
             out.fail('re-ranged-density', 'n != P/kT after the range change')
+        # ... and the structure must be hydrostatic on the NEW levels (nothing kept from the first range)
+        T2 = np.asarray(m.temperatureProfile, dtype=float)
+        mu2 = np.asarray(m.chemistry.muProfile, dtype=float)
+        if Pl2.shape == (nl + 1,) and np.all(np.diff(Pl2) < 0) and np.all(np.isfinite(np.asarray(m.altitude_boundaries, dtype=float))):
+            M = W.g_surface * (w['radius'] * RJUP) ** 2 / ref.G_NEWTON
+            zr, Hr, gr, dzr = hydro_reference(M, w['radius'] * RJUP, T2, Pl2, mu2)
+            out.applies('re-ranged-hydro')
+            for name, a, b in (('altitude_boundaries', m.altitude_boundaries, zr), ('altitudeProfile', m.altitudeProfile, zr[:-1]),
+                               ('deltaz', m.deltaz, dzr), ('gravity_profile', m.gravity_profile, gr),
+                               ('scaleheight_profile', m.scaleheight_profile, Hr)):
+                if np.shape(a) != np.shape(b) or not close(a, b, rtol=1e-9, atol=1e-12 * abs(zr[-1])):
+                    out.fail('re-ranged-hydro@' + name, 'after the range change: max rel %.2e' % (maxrel(a, b) if np.shape(a) == np.shape(b) else -1))
 
 
 def check(case):
